@@ -119,6 +119,11 @@ def main(argv):
     # ---- API level: what get()/getnext() put on the wire for a sample of texts
     sample = [t for t in texts[:23]] + [t for t in texts[23:] if len(t) < 200][: (600 if thorough else 150)]
     sample = [t for t in sample if "é" not in t]
+    # OIDs whose own BER header changes form (content of 126..129 and 255..257 octets, and close to the 4080-octet buffer)
+    for n in (126, 127, 128, 129, 255, 256, 257, 1000):
+        sample.append("1.3." + ".".join("1" for _ in range(n - 1)))
+        k = (n - 1) // 5
+        sample.append("1.3." + ".".join(["4294967295"] * k + ["1"] * (n - 1 - 5 * k)))
     scs = []
     for ver in ("v1", "v2c"):
         steps = []
